@@ -1,6 +1,7 @@
 package keeper
 
 import (
+	"math/bits"
 	"strconv"
 
 	assetTypes "github.com/comdex-official/comdex/x/asset/types"
@@ -127,12 +128,15 @@ func (k Keeper) UpdatePriceList(ctx sdk.Context, id, scriptID, rate, twaBatch ui
 }
 
 func (k Keeper) CalculateTwa(ctx sdk.Context, twa types.TimeWeightedAverage, twaBatch uint64) uint64 {
-	var sum uint64
+	// accumulate in 128 bits: the sum of twaBatch samples can exceed uint64
+	var sumHi, sumLo uint64
 	oldTwa := twa.Twa
 	for i := 0; i < int(twaBatch); i++ {
-		sum = sum + twa.PriceValue[i]
+		var carry uint64
+		sumLo, carry = bits.Add64(sumLo, twa.PriceValue[i], 0)
+		sumHi += carry
 	}
-	twa.Twa = sum / twaBatch
+	twa.Twa, _ = bits.Div64(sumHi, sumLo, twaBatch)
 
 	if oldTwa != twa.Twa {
 		ctx.EventManager().EmitEvents(sdk.Events{
